@@ -5,3 +5,21 @@ package ir
 // verifYield is a scheduling point used by the verification harness (build tag verif).
 // Without the tag it is an empty function that the compiler inlines away.
 func verifYield() {}
+
+// Protocol trace points of the verification harness (property C18); empty without the tag.
+const (
+	verifWaitSkip = iota
+	verifWaitCheck
+	verifWaitRecv
+	verifWaitEnd
+)
+
+func verifTraceLock()                           {}
+func verifTraceStart(*builder, *Package)        {}
+func verifTraceEnqueue(*builder, *Function)     {}
+func verifTraceHit(*builder, *Function)         {}
+func verifTraceBuild(*builder, *Function)       {}
+func verifTraceFnDone(*builder, *Function)      {}
+func verifTraceMarkDone(*builder)               {}
+func verifTraceReturn(*builder)                 {}
+func verifTraceWait(int, *task, *task, []*task) {}
